@@ -1821,6 +1821,24 @@ bool Generator::GeneratorImpl::isToBeComputedAgain(const AnalyserEquationPtr &eq
     }
 }
 
+bool Generator::GeneratorImpl::usesRateOf(const AnalyserEquationAstPtr &ast,
+                                          const AnalyserVariablePtr &state) const
+{
+    // Determine whether the given AST uses the rate of the given state.
+
+    if (ast == nullptr) {
+        return false;
+    }
+
+    if ((ast->type() == AnalyserEquationAst::Type::DIFF)
+        && (ast->rightChild() != nullptr)
+        && mModel->areEquivalentVariables(ast->rightChild()->variable(), state->variable())) {
+        return true;
+    }
+
+    return usesRateOf(ast->leftChild(), state) || usesRateOf(ast->rightChild(), state);
+}
+
 bool Generator::GeneratorImpl::isSomeConstant(const AnalyserEquationPtr &equation,
                                               bool includeComputedConstants) const
 {
@@ -1879,7 +1897,12 @@ std::string Generator::GeneratorImpl::generateEquationCode(const AnalyserEquatio
 
         if (!isSomeConstant(equation, includeComputedConstants)) {
             for (const auto &dependency : equation->dependencies()) {
-                if ((dependency->type() != AnalyserEquation::Type::ODE)
+                // Note: to depend on an ODE normally means to use its state,
+                //       which is readily available, unless the equation uses
+                //       its rate, in which case the ODE must be computed first.
+
+                if (((dependency->type() != AnalyserEquation::Type::ODE)
+                     || usesRateOf(equation->ast(), dependency->variable(0)))
                     && !isSomeConstant(dependency, includeComputedConstants)
                     && (equationsForDependencies.empty()
                         || isToBeComputedAgain(dependency)
